@@ -93,7 +93,8 @@ class Check:
         s['name'] = harness_name or s['name']
         self.explorations.append(s)
         if not exp.complete:
-            self.harness_errors.append('%s: exploration incomplete (budget/wall limit)' % s['name'])
+            died = [n for n in exp.notes if isinstance(n, dict) and n.get('t') == 'worker_died']
+            self.harness_errors.append('%s: exploration incomplete (%s)' % (s['name'], died[0]['v'] if died else 'budget/wall limit'))
         if exp.stats.paths < need_paths:
             self.harness_errors.append('%s: only %d paths explored (vacuous harness?)' % (s['name'], exp.stats.paths))
         if exp.reached == 0 and not exp.failures:
